@@ -660,6 +660,11 @@ def correspondence(ctx):
         L = max(dom[0], dom[1], max(dom[2], 1))
         rr = rng.random()
         radius = rng.uniform(0.3, 1.0) if rr < 0.15 else (float(rng.randint(1, 4)) if rr < 0.3 else rng.uniform(0.3, 3.0 * L))
+        if 0.3 <= rr < 0.55:
+            # next to a lattice distance sqrt(m) (m = i^2 + j^2 + k^2) or just below an integer: the limits of the search window
+            # and of any distance table sit exactly there
+            m_ = rng.choice([1, 2, 3, 4, 5, 6, 8, 9, 10, 13, 16])
+            radius = rng.choice([math.sqrt(m_) + rng.choice([-0.05, -1e-3, 1e-3, 0.05]), float(rng.randint(2, 5)) - rng.choice([0.02, 0.1, 0.2])])
         if radius > 9.5:
             radius = rng.uniform(0.3, 9.5)
         npd = sorted(rng.sample(range(nel), rng.randint(0, nel))) if rng.random() < 0.25 else None
@@ -780,6 +785,11 @@ def search(ctx, disagreements):
         why, fkey = _oracle_spec(spec)
         if why:
             found.append(_witness(why, fkey, spec))
+        elif spec.get("kind") == "dens" and spec.get("nonpadding") is not None:
+            sp2 = dict(spec, nonpadding=None)       # the same filter without the normalisation override: defining formula applies
+            why, fkey = _oracle_spec(sp2)
+            if why:
+                found.append(_witness(why, fkey, sp2))
         if len([f for f in found if not f["finding_key"]]) >= 3 or seen > 30:
             break
     if not [f for f in found if not f["finding_key"]]:
